@@ -531,6 +531,7 @@ MAIN_IP = {"Notify": "top", "LoopExit": "top", "Gate": "notify", "SelectReturn":
            "MurderPop": "lock:murder_keepalived", "MurderPutBack": "lock:murder_keepalived",
            "MurderUnreg": "lock:murder_keepalived", "MurderClose": "close", "ShutdownPool": "shutdown",
            "ClosePoller": "pclose", "CloseListeners": "lclose", "GraceWait": "waitall"}
+MODEL_KINDS = set(MAIN_IP.values())
 ENV_MAP = {"ClientConnect": "connect", "ClientSend": "send", "ClientClose": "leave", "Tick": "tick",
            "Term": "term", "ParentDies": "pdead", "Pick": "start", "HandleDone": "handle",
            "JobCrash": "crash", "FinishKeep": "finish", "FinishClose": "finish",
@@ -593,8 +594,10 @@ class BehaviourSched(BaseSched):
         if self.phase != "run":
             self.tail(sim, kind)
             return None
-        if kind == "lock:accept" and self.drift is None and self.i < len(self.steps):
-            return None      # inside the model's atomic Accept (accept + count + register)
+        if kind not in MODEL_KINDS and self.drift is None and self.i < len(self.steps):
+            # inside an action the model takes atomically (Accept: accept + count + register;
+            # AddCallback running finish_request inline)
+            return None
         if self.drift is not None or self.i >= len(self.steps):
             # behaviour exhausted (or lost): finish the run with the common tail
             if sim.termed:
